@@ -42,7 +42,7 @@ def gen_static(tape):
     cons = []
     for _ in range(n_cons):
         chain = [gen_adapter(tape, PASS) for _ in range(tape.weighted([(0, 5), (1, 3), (2, 1)]))]
-        cons.append({"chain": chain, "static": tape.chance(1, 2)})
+        cons.append({"chain": chain, "static": tape.chance(1, 2), "units": tape.choice([None, "m", "km", "mm"])})
     events = [["PUSH", tape.choice([None, 0, 5]), 42.5]]
     for _ in range(tape.rng_int(3, 14)):
         k = tape.weighted([("PULL", 8), ("PUSH", 2)])
@@ -73,7 +73,7 @@ def run_static(sc):
                 f, add = f * a["f"], add * a["f"]
             else:
                 add += a["c"]
-        inp = Input(name=f"c{ci}", info=Info(time=None, grid=NoGrid(), units=None), static=c["static"])
+        inp = Input(name=f"c{ci}", info=Info(time=None, grid=NoGrid(), units=c.get("units")), static=c["static"])
         cur >> inp
         inputs.append(inp)
         fac.append((f, add))
@@ -119,7 +119,7 @@ def run_static(sc):
                     if res[0] != "FinamNoDataError":
                         v("static-value", res[0], f"event {ei}: pull before any publication gave {res}")
                     continue
-                want = published * fac[ci][0] + fac[ci][1]
+                want = convert(published * fac[ci][0] + fac[ci][1], "m", sc["consumers"][ci].get("units") or "m")
                 if res[0] != "val" or not any_close(res[1], (want,)):
                     v("static-value", res[0], f"event {ei}: consumer {ci} pull at {t}: {res}, expected {want} for every request time")
                 if sc["consumers"][ci]["static"]:
